@@ -49,7 +49,10 @@ R.contract(
     ensures=dict(PART),
     lemmas={"psum_nonneg": ("n", "0", "len(self.weights)", "psum(self.weights, n) >= 0")},
     post_lemmas={"share_sums_nonneg": ("n", "0", "len(shares)", "psum(shares, n) >= 0")},
-    proves={"pre_shares_nonneg": "forall(0, len(shares), lambda k: shares[k] >= 0)"},
+    proves={
+        "pre_shares_nonneg": "forall(0, len(shares), lambda k: shares[k] >= 0)",
+        "pre_indices_monotone": "forall(0, len(indices) - 1, lambda k: indices[k] <= indices[k + 1])",
+    },
     fresh_result=True,
     props=["C15", "C16"],
 )
